@@ -132,7 +132,15 @@ def check(program, modules):
                 if ch is None:
                     continue
                 last = ch.rsplit(".", 1)[-1].lstrip("_")
-                if last != formal.lstrip("_") and last in plain_names:
+                # (not when the parameter of that name gets a value of that
+                # name anyway: ``f(length, self.length)`` for (length, limit)
+                # hands two different things over, each under its own name)
+                rightly = any(
+                    isinstance(v2, ast.AST) and chain(v2) is not None and
+                    chain(v2).rsplit(".", 1)[-1].lstrip("_") == last and
+                    k2.lstrip("_") == last for k2, v2 in b.items())
+                if last != formal.lstrip("_") and last in plain_names and \
+                        not rightly:
                     found = True
                     out.append(("swap", mname, c, fn, formal,
                                 "%s(... %s=%s ...): the callee has a "
